@@ -15,6 +15,7 @@ RULE = (
     "same configuration with min_n_points=min_n_intervals=0 to see the state before dropping. evaluations = monitored slice_ calls; "
     "non-trivial = the vector has an observation within 4 ulp of a reported interval edge or is not sorted; all (configuration, vector) "
     "pairs are distinct by construction and counted."
+    ' Also: value ranges (w,1.5w), (0.5w,2w); translation invariance of the interval count; documented defaults judged for options that are not passed (partial chunks of 50..n_points-1 points).'
 )
 ASSUMPTIONS = [
     "the covered value range is the span of the boundaries reported before dropping, with the configured open/closed ends",
